@@ -47,7 +47,7 @@ def eval_task(task):
     if "world" in task:
         world = task["world"]
     else:
-        world = gen_put_world(task_rng(pid, seed, i), cfg.get("profile", "mixed"))
+        world = gen_put_world(task_rng(pid, seed, i), cfg.get("profile", "mixed"), focus=cfg.get("focus"))
         if task.get("force_verbose"):
             from .model import put_argv
             world["opts"] = dict(world["opts"], verbose=task["force_verbose"])
